@@ -2052,6 +2052,10 @@ class Exec:
                 if isinstance(A[0], (VObj, VFunc, VClass, VExt)):
                     return [(st, VExt('weakref.ref', (A[0],)))]
                 return [(st, Raise('TypeError', getattr(n, 'lineno', None)))]      # None, ints, str, tuples cannot be weakly referenced
+            if name == 'str' and len(A) == 1 and isinstance(A[0], VStr):
+                # str(x) of a str (or of an instance of a str subclass without its own __str__): the same text as a plain str
+                if A[0].cls is None or self.repo.lookup(A[0].cls, '__str__') is None:
+                    return [(st, VStr(s=A[0].s, z=A[0].z, prefix=A[0].prefix, cp=A[0].cp))]
             if name in ('filter', 'map'):
                 # lazily evaluated in Python; here: applied at once (the callables used are side-effect free predicates / projections)
                 f, its = A[0], self.iter_items(A[1], st)
